@@ -139,6 +139,12 @@ package keeper
 //@   by share_mono_j: ens:rules_list, req
 //@   ensures ledger:   err == nil ==> (forall d:Str :: bal(MOD, d) == old(bal(MOD, d)) - amt(collected, d) && bal(COLLECTOR, d) == old(bal(COLLECTOR, d)) + amt(collected, d))
 //@   ensures ledger_frame: forall a:Bytes :: forall d:Str :: a != MOD && a != COLLECTOR ==> bal(a, d) == old(bal(a, d))
+// it cannot fail when the height has not gone back, the pool has a rule, every budget covers what is released now and
+// the escrow account holds it
+//@   ensures succeeds: old(height >= pool.LastHeightDistrRewards && has(ruleF, pool.Id, ufstr("some_reward", pool.Id))
+//@                       && (forall d:Str :: bal(MOD, d) >= 0)
+//@                       && (releasing(pool) ==> (forall d:Str :: has(ruleF, pool.Id, d) ==> RULE(pool.Id, d).RemainingReward >= relOf(RULE(pool.Id, d), pool)
+//@                                                                  && bal(MOD, d) >= relOf(RULE(pool.Id, d), pool)))) ==> err == nil
 //@   ensures pool_record: err == nil ==> np == with(with(with(with(with(pool, "TotalLptLocked", coin(pool.TotalLptLocked.Denom, pool.TotalLptLocked.Amount + amount)),
 //@                           "LastHeightDistrRewards", height), "EndHeight", ite(isDestroy, height, pool.EndHeight)),
 //@                           "StartHeight", ite(isDestroy && pool.StartHeight > height, height, pool.StartHeight)), "Rules", np.Rules)
@@ -286,4 +292,66 @@ package keeper
 //@   lemma @return remDiff(old(ruleF), ruleF, poolId) if err == nil
 //@   ensures escrow:   err == nil && old(escrowInv) ==> escrowInv
 //@   by escrow: ens:ledger, ens:pool_record, ens:rules, ens:rule_frame, ens:guards, lemma, req
+//@ end
+
+// every pool has at least one reward rule and, while it has not ended, the budget of every rule covers the blocks
+// that remain (the invariant updatePool's success depends on; established by createPool, kept by AdjustPool)
+//@ define endInv(pl) = (forall d:Str :: has(ruleF, pl.Id, d) ==> RULE(pl.Id, d).RemainingReward >= RULE(pl.Id, d).RewardPerBlock * (pl.EndHeight - max(pl.LastHeightDistrRewards, pl.StartHeight)))
+//@        && has(ruleF, pl.Id, ufstr("some_reward", pl.Id)) && (pl.TotalLptLocked.Amount > 0 ==> pl.StartHeight <= pl.LastHeightDistrRewards)
+
+// Unstake: a farmer can always take out up to the recorded stake (C05): the only guards are the ones on the request
+// itself, the pool may have ended or been destroyed, and under the module invariants no step can fail.
+//@ func Keeper.Unstake
+//@   property C05, C06
+//@   returns reward, err
+//@   requires rulesWF && rulesOK
+//@   requires sender != COLLECTOR && sender != MOD && !blocked[sender] && height >= 0
+//@   requires lpToken.Amount > 0 && ufb("denom_valid", lpToken.Denom)
+//@   requires has(pools, poolId) ==> poolOK(POOL(poolId)) && POOL(poolId).Id == poolId
+//@   requires has(farmers, bech(sender), poolId) ==> posWF(bech(sender), poolId)
+//@   let pl = POOL(poolId)
+//@   let fi = FARMER(bech(sender), poolId)
+//@   let lp = lpToken.Denom
+//@   let ended = height > pl.EndHeight || (height == pl.EndHeight && !has(active, pl.EndHeight, poolId))
+//@   let rel = !ended && releasing(pl)
+//@   uses ridxRange(POOL(poolId).Rules, "")
+//@   uses ridxHit(POOL(poolId).Rules, 0)
+//@   modifies ruleF, pools, bal, farmers
+//@   ensures guards:   err == nil ==> old(has(pools, poolId)) && old(has(farmers, bech(sender), poolId)) && lp == pl.TotalLptLocked.Denom
+//@                       && fi.Locked >= lpToken.Amount && pl.TotalLptLocked.Amount >= lpToken.Amount
+//@   ensures rules:    err == nil ==> (forall d:Str :: has(ruleF, poolId, d) == old(has(ruleF, poolId, d))
+//@                       && (has(ruleF, poolId, d) ==> RULE(poolId, d) == ite(rel, updRule(old(RULE(poolId, d)), pl), old(RULE(poolId, d)))))
+//@   ensures rule_frame: forall p:Str :: forall d:Str :: p != poolId ==> has(ruleF, p, d) == old(has(ruleF, p, d)) && RULE(p, d) == old(RULE(p, d))
+//@   ensures paid:     err == nil ==> (forall d:Str :: amt(reward, d) == ite(has(ruleF, poolId, d),
+//@                       min(pend(RULE(poolId, d), fi.Locked, amt(fi.RewardDebt, d)), max(0, old(bal(COLLECTOR, d)) + ite(rel, relD(pl, d), 0))), 0))
+//@   ensures position: err == nil ==> ite(fi.Locked == lpToken.Amount, !has(farmers, bech(sender), poolId),
+//@                       has(farmers, bech(sender), poolId) && FARMER(bech(sender), poolId).Locked == fi.Locked - lpToken.Amount
+//@                       && FARMER(bech(sender), poolId).PoolId == poolId && FARMER(bech(sender), poolId).Address == bech(sender)
+//@                       && (forall d:Str :: amt(FARMER(bech(sender), poolId).RewardDebt, d) == ite(has(ruleF, poolId, d), debtOf(RULE(poolId, d), fi.Locked - lpToken.Amount), 0)))
+//@   ensures position_set: err == nil ==> farmers == ite(fi.Locked == lpToken.Amount, del(old(farmers), bech(sender), poolId), set(old(farmers), bech(sender), poolId, FARMER(bech(sender), poolId)))
+//@   ensures farmers_frame: err != nil ==> farmers == old(farmers)
+//@   ensures ledger:   err == nil ==> (forall d:Str :: bal(MOD, d) == old(bal(MOD, d)) - ite(rel, relD(pl, d), 0) - ite(d == lp, lpToken.Amount, 0)
+//@                       && bal(COLLECTOR, d) == old(bal(COLLECTOR, d)) + ite(rel, relD(pl, d), 0) - amt(reward, d)
+//@                       && bal(sender, d) == old(bal(sender, d)) + amt(reward, d) + ite(d == lp, lpToken.Amount, 0))
+//@   ensures ledger_frame: forall a:Bytes :: forall d:Str :: a != MOD && a != COLLECTOR && a != sender ==> bal(a, d) == old(bal(a, d))
+//@   ensures pool_record: err == nil ==> pools == set(old(pools), poolId, with(with(with(pl, "TotalLptLocked", coin(pl.TotalLptLocked.Denom, pl.TotalLptLocked.Amount - lpToken.Amount)),
+//@                           "LastHeightDistrRewards", ite(ended, pl.LastHeightDistrRewards, height)), "Rules", zero(pl.Rules)))
+// (i) the pool's total moves with the farmer's stake, other pools are untouched
+//@   lemma @return lockedUpd(old(farmers), bech(sender), poolId, FARMER(bech(sender), poolId)) if err == nil
+//@   lemma @return lockedDel(old(farmers), bech(sender), poolId) if err == nil
+//@   ensures stake_sum: err == nil ==> (old(stakeInvAt(poolId)) ==> stakeInvAt(poolId))
+//@                       && (forall q:Str :: q != poolId ==> LOCKED(farmers, q) == old(LOCKED(farmers, q)))
+//@   by stake_sum: ens:position_set, ens:position, ens:pool_record, ens:guards, lemma
+// (ii) escrow == staked + unreleased budgets is preserved
+//@   lemma @return stakedUpd(old(pools), poolId, POOL(poolId)) if err == nil
+//@   lemma @return remDiff(old(ruleF), ruleF, poolId) if err == nil
+//@   ensures escrow:   err == nil && old(escrowInv) ==> escrowInv
+//@   by escrow: ens:ledger, ens:pool_record, ens:rules, ens:rule_frame, ens:guards, lemma, req
+// (iii) withdrawal never fails: under the module invariants every error return is unreachable for a request within the stake
+//@   lemma @entry lockedGe(farmers, bech(sender), poolId) if forall b:Str :: has(farmers, b, poolId) ==> FARMER(b, poolId).Locked >= 0
+//@   ensures never_fails: old(has(pools, poolId) && has(farmers, bech(sender), poolId)) && lp == pl.TotalLptLocked.Denom && lpToken.Amount <= fi.Locked
+//@                       && old(stakeInvAt(poolId) && escrowInv && endInv(pl)) && pl.LastHeightDistrRewards <= height
+//@                       && old(forall b:Str :: has(farmers, b, poolId) ==> FARMER(b, poolId).Locked >= 0)
+//@                       && old(forall d:Str :: STAKED(pools, d) >= stakedAt(pools, poolId, d) && REM(ruleF, d) >= remAt(ruleF, poolId, d) && REM(ruleF, d) >= 0 && STAKED(pools, d) >= 0)
+//@                       ==> err == nil
 //@ end
